@@ -400,6 +400,36 @@ pub fn run(o: &crate::Opts) {
             do_case(&mut runner, &mut sink, "extreme", stack, &text);
         }
     }
+    // numerals of every size (with and without a literal prefix) in every operand position, label
+    // position and directive operand position: whatever looks at such a token — the range checks,
+    // the hints of the diagnostics — must survive values beyond u16 / u32 / u64 / u128
+    {
+        const SLOTS: &[&str] = &[
+            "add r0 r0 {}", "add r0 {} r1", "add {} r0 r1", "and r1 r1 {}", "not r1 {}", "ldr r0 r1 {}", "str r0 {} #1",
+            "br {}", "brnzp {}", "ld r0 {}", "ld {} x", "lea r1 {}", "st r1 {}", "sti r1 {}", "ldi r1 {}", "jsr {}", "jsrr {}",
+            "jmp {}", "trap {}", ".fill {}", ".blkw {}", ".stringz {}", ".orig {}", "{} halt", "{}", "{} .fill x1", "push {}",
+            "call {}", "x halt\nbr {}", "{} {}", "halt {}",
+        ];
+        const NUMERALS: &[&str] = &[
+            "0", "7", "65535", "65536", "99999", "2147483647", "2147483648", "4294967295", "4294967296", "10000000000",
+            "18446744073709551615", "18446744073709551616", "99999999999999999999999",
+            "340282366920938463463374607431768211455", "340282366920938463463374607431768211456",
+            "00000000000000000000000000000000000000000000000001", "-1", "-4294967296", "+4294967296", "1e9", "4294967296x",
+        ];
+        let mut k = 0usize;
+        for slot in SLOTS {
+            for num in NUMERALS {
+                for pre in ["", "#", "x", "0x", "#-", "x-"] {
+                    k += 1;
+                    if k % o.nshards != o.shard {
+                        continue;
+                    }
+                    let text = format!("{}\nhalt\n", slot.replace("{}", &format!("{}{}", pre, num)));
+                    do_case(&mut runner, &mut sink, "numeral-slots", k % 3 != 0, &text);
+                }
+            }
+        }
+    }
     let total: u64 = if o.thorough { 2_000_000 } else { 30_000 };
     for idx in 0..total {
         if (idx as usize) % o.nshards != o.shard {
